@@ -16,11 +16,15 @@ static inline u64 addmod(u64 x, u64 y) { u128 s = (u128)x + (u128)y; return (u64
 static inline u64 submod(u64 x, u64 y) { return x >= y ? x - y : (u64)((u128)x + GP - y); }
 static inline u64 negmod(u64 x) { return x == 0 ? 0 : GP - x; }
 
-/* field multiplication of canonical values: uninterpreted, commutative by construction.
- * Range axiom (result canonical) is instantiated where a contract that mentions MUL is *assumed*. */
+/* field multiplication of canonical values: an uninterpreted function of the ORDERED pair of canonical operands.
+ * Commutativity is not built into the term (min/max muxes made every obligation 3-4x slower); it is supplied as an
+ * instantiated axiom MULC(x,y) : MUL(x,y) == MUL(y,x) in the assumed postcondition of every multiplication kernel, i.e.
+ * exactly at the applications the code makes - true of the real product, so the abstraction stays sound, and a kernel that
+ * swaps the operands of a product still verifies. */
 u64 __CPROVER_uninterpreted_mulmod(u64, u64);
 static inline u64 MUL(u64 x, u64 y) /* no call to another spec function inside (dfcc restriction) */
-{ u64 a = x >= GP ? x - GP : x, b = y >= GP ? y - GP : y; return a <= b ? __CPROVER_uninterpreted_mulmod(a, b) : __CPROVER_uninterpreted_mulmod(b, a); }
+{ u64 a = x >= GP ? x - GP : x, b = y >= GP ? y - GP : y; return __CPROVER_uninterpreted_mulmod(a, b); }
+#define MULC(x, y) (MUL(x, y) == MUL(y, x))
 
 /* reduction target of a 128-bit value hi:lo :  T = lo + hi_lo*(2^32-1) - hi_hi   (signed 128-bit, shifts only) */
 static inline s128 redT(u64 hi, u64 lo)
